@@ -6,6 +6,7 @@ from ..astutil import call_attr, dotted, statements, calls
 from ..cfg import CFG
 from ..facts import Facts, fact
 from ..report import control
+from ..sym import cond_literals
 from ..strfmt import str_parts, consts, skeleton
 from .. import variants
 
@@ -241,6 +242,39 @@ def check(ctx):
                   "the window variables of an applicable trial are shifted by `%s` trials; with t counting applicable steps and delta the start offset in trials, "
                   "trial start + k*stride needs `t*window.stride + delta`: a start that differs from the default combined with a stride > 1 derives the level from the wrong trials "
                   "(IterateSATGen then labels trials against the factor's own definition)" % got, node)
+
+    # ---- implied factors: the window of an early trial reaches before the first trial; those positions are None, never a
+    # wrapped-around value from the end of the sequence: every read results[<factor>.name][E] whose index is an offset from the
+    # current trial is reached only under 0 <= E
+    R = "C15.window"
+    ai = ctx.fn("block:Block.add_implied_levels")
+    Fai = Facts(ai)
+    n_reads = 0
+    for st in Fai.stmts:
+        if isinstance(st, (ast.For, ast.While, ast.If, ast.With, ast.Try)):
+            continue
+        for x in ast.walk(st):
+            if not (isinstance(x, ast.Subscript) and isinstance(x.ctx, ast.Load) and isinstance(x.value, ast.Subscript) and dotted(x.value.value) == "results"):
+                continue
+            idx = x.slice
+            if not any(isinstance(n_, ast.BinOp) for n_ in ast.walk(idx)):
+                continue                 # the current trial itself
+            n_reads += 1
+            nf = str(Fai.at(st, idx))
+            conds = Fai.conds(st)
+            # a comprehension filter on the same index counts as a guard as well
+            comp_guard = False
+            for c_ in ast.walk(st):
+                if isinstance(c_, (ast.ListComp, ast.DictComp, ast.GeneratorExp, ast.SetComp)) and any(y is x for y in ast.walk(c_)):
+                    for g_ in c_.generators:
+                        for t_ in g_.ifs:
+                            if ("(0 <= %s)" % nf) in cond_literals(t_, True, Fai.snaps.get(id(st))):
+                                comp_guard = True
+            ctx.check(("(0 <= %s)" % nf) in conds or comp_guard, R, ai, "implied window read results[..][%s]" % nf,
+                      "a window position before the first trial is not read (it is None)",
+                      "add_implied_levels reads results[..][%s] on a path where the index can be negative (path condition %s): the first trials of an implied factor with a "
+                      "window wider than its start take values from the end of the sequence instead of None" % (nf, conds), st)
+    ctx.require(n_reads >= 1, "add_implied_levels: no offset read of the results found")
 
     # a derived level rebuilt for weight desugaring must keep its window (width, stride, start) and weight: the field-carry
     # rule of C23, restricted to the level / factor classes
